@@ -695,19 +695,22 @@ def _analyse_lookup1(p, obs):
     L.res["clamp"] = ("ok", None)
     L.P = kinds["clamped"]
     L.C = app(L.P, "idx")[1]
-    # any other use of the insertion index (outside P)
-    stop = lambda x: same(x, L.P)
-    if any(same(x, L.ss) for x in walk(obs, stop)):
-        direct = find(obs, lambda x: bool(app(x, "idx")) and same(app(x, "idx")[0], L.base) and contains(app(x, "idx")[1], L.ss)
-                      and not contains(app(x, "idx")[1], L.P), stop)
-        if direct and not L.sorted_copy:
-            L.res["sorter-map"] = ("fail", {"use": _show(direct[0]), "consequence": "an index into the sorted order is applied to the unsorted keys"})
-            return L
-        if not (L.sorted_copy and all(same(app(x, "idx")[0], L.H) and same(app(x, "idx")[1], L.C)
-                                      for x in find(obs, lambda x: bool(app(x, "idx")) and contains(app(x, "idx")[1], L.ss)
-                                                    and not same(x, L.P), stop))):
-            L.res["sorter-map"] = ("error", "the insertion index is also used outside `sorter[index]`")
-            return L
+    # any other use of the (clamped) insertion index, outside P
+    at_p = lambda x: same(x, L.P)
+    idx_c = find(obs, lambda x: bool(app(x, "idx")) and same(app(x, "idx")[1], L.C) and not same(x, L.P), at_p)
+    for x in idx_c:
+        b = app(x, "idx")[0]
+        if L.sorted_copy and same(b, L.H):
+            continue                # the sorted keys at the clamped index: the keys found
+        if same(b, L.base):
+            L.res["sorter-map"] = ("fail", {"use": _show(x), "consequence": "an index into the sorted order is applied to the unsorted keys"})
+        else:
+            L.res["sorter-map"] = ("error", "the clamped insertion index also indexes " + _show(b))
+        return L
+    done = lambda x: same(x, L.P) or any(same(x, y) for y in idx_c)
+    if any((same(x, L.C) or same(x, L.ss)) for x in walk(obs, done) if not done(x)):
+        L.res["sorter-map"] = ("error", "the insertion index is also used outside `sorter[index]`")
+        return L
     # exact re-check: the keys found at P are compared with the requested keys
     found = [F.fn("idx", L.base, L.P)] + ([F.fn("idx", L.H, L.C)] if L.sorted_copy else [])
     L.found = found
